@@ -790,6 +790,8 @@ class X12ContextReader(object):
         """
         cur_tree = None
         cur_data_node = None
+        cur_map = None
+        icvn = None
         for seg in self.src:
             #find node
             orig_node = self.x12_map_node
@@ -836,6 +838,10 @@ class X12ContextReader(object):
                         self._reset_counter_to_isa_counts()
                     #self._reset_gs_counts(cur_map)
                     self._reset_counter_to_gs_counts()
+                    if cur_map is None:
+                        # the index answered with the control map itself (GS01 and GS08 empty)
+                        raise pyx12.errors.EngineError("Map not found.  icvn=%s, fic=%s, vriic=%s" %
+                                                       (icvn, fic, vriic))
                     tpath = '/ISA_LOOP/GS_LOOP/GS'
                     self.x12_map_node = cur_map.getnodebypath(tpath)
                     #self.walker.forceWalkCounterToLoopStart('/ISA_LOOP/GS_LOOP', '/ISA_LOOP/GS_LOOP/GS')
